@@ -431,6 +431,55 @@ pub fn convert_once(case: &Case) -> Result<(Vec<(String, Vec<i16>)>, String), St
                 Err(x) => Ok((vec![], format!("Err: {x:?} / {x}"))),
             }
         }
+        9 if case.block_layers == 3 && case.dup_layer_nums => {
+            // LEF -> raw -> LEF where the supplied layer set holds a layer without a name of its own (as GDSII import
+            // makes them) that the name index lists under two or three spellings, all of which the LEF uses: whatever
+            // the exporter answers (a library or an error) must not depend on the order of the name index
+            let spellings = ["met1", "metal1", "M1"];
+            let n = 2 + (case.port_layers % 2);
+            let mut ls = Layers::default();
+            let key = ls.add(Layer::from_pairs(68, &[(20, LayerPurpose::Drawing), (16, LayerPurpose::Pin)]).map_err(e)?);
+            for k in 0..n {
+                ls.names.insert(spellings[(k + case.perm) % 3].to_string(), key);
+            }
+            use lef21::{LefDbuPerMicron, LefDecimal, LefGeometry, LefLayerGeometries, LefLibrary, LefMacro, LefPin, LefPoint, LefPort, LefShape, LefUnits};
+            let rect = |name: &str, x: i64, y: i64| LefLayerGeometries {
+                layer_name: name.to_string(),
+                geometries: vec![LefGeometry::Shape(LefShape::Rect(None, LefPoint::new(LefDecimal::new(10 * x + 1, 1), LefDecimal::new(10 * y + 1, 1)), LefPoint::new(LefDecimal::new(10 * x + 5, 1), LefDecimal::new(10 * y + 5, 1))))],
+                ..Default::default()
+            };
+            let mut l0 = LefLibrary::default();
+            l0.units = Some(LefUnits { database_microns: Some(LefDbuPerMicron(2000)), ..Default::default() });
+            let mut m = LefMacro::new("buf");
+            m.size = Some((LefDecimal::new(40, 1), LefDecimal::new(30, 1)));
+            for k in 0..n {
+                let mut pin = LefPin::default();
+                pin.name = format!("p{k}");
+                let mut port = LefPort::default();
+                port.layers = vec![rect(spellings[(k + case.perm) % 3], k as i64, 0)];
+                pin.ports.push(port);
+                m.pins.push(pin);
+            }
+            if case.two_shapes {
+                m.obs = vec![rect(spellings[case.perm % 3], 0, 1)];
+            }
+            l0.macros.push(m);
+            let lib = match raw::lef::LefImporter::import(&l0, Some(Ptr::new(ls))) {
+                Ok(l) => l,
+                Err(x) => return Ok((vec![], format!("import Err: {x:?} / {x}"))),
+            };
+            let mut sig = map_orders(&lib);
+            {
+                // the name index is a map the exporter may walk: its iteration order is part of the configuration
+                let layers = lib.layers.read().map_err(|_| "lock".to_string())?;
+                let order: Vec<i16> = layers.names.keys().filter_map(|k| spellings.iter().position(|x| x == k)).map(|p| p as i16).collect();
+                sig.push(("layers.names".to_string(), order));
+            }
+            match raw::lef::LefExporter::export(&lib) {
+                Ok(l) => Ok((sig, format!("{}\n{}", dump_raw(&lib), serde_json::to_string(&l).map_err(|x| x.to_string())?))),
+                Err(x) => Ok((sig, format!("{}\nexport Err: {x:?} / {x}", dump_raw(&lib)))),
+            }
+        }
         9 if case.two_cells => {
             // raw -> protobuf of an instance without a name whose rotation is not a whole number of degrees (the schema
             // stores whole degrees): the error is the result
@@ -602,7 +651,7 @@ impl CaseDriver for C20 {
     }
     fn describe(&self, _tier: Tier) -> Describe {
         Describe {
-            rule: "inputs: raw libraries with 1-2 abstract cells whose 1-2 ports carry shapes on 1-3 layers and whose blockages sit on 0/2/3 layers (unordered maps with 1-3 keys, every insertion order), 1-2 shapes per layer, plus a layout cell with elements on 3 layers x 2 purposes, an annotation and a reflected+rotated instance; LEF / protobuf / GDSII inputs derived from them in a fixed order. Conversions: raw->GDSII (bytes, dates pinned), raw->protobuf (prost bytes), raw->LEF (serde_json), LEF->raw->LEF, protobuf->raw->protobuf, GDSII->raw, raw->GDSII->raw, gridded layout->raw (raw results as an order-preserving dump; the gridded cell optionally holds two instances abutting along the tracks), and two conversions whose result is an error - GDSII->raw on struct rings of 2..4 closed by SREF / AREF (optionally a second ring, either listing order) raw->protobuf on cell rings, raw->GDSII / raw->protobuf of an element whose layer does not define its purpose, raw->protobuf of an unnamed instance rotated by 22.5 degrees, and gridded layout->raw of a cut lying under an instance / of two overlapping cuts - where the rendered error is the compared output. Configurations: every input is rebuilt / re-imported with fresh HashMaps until each of the k! iteration orders of every map the exporter walks has been observed on the very map objects (minimum 32, cap 4096 rebuilds; coverage measured and reported as tags), plus fresh OS processes, plus the same input once more after each of three *other* inputs went through the same conversion in the same process (no state carried from one library to the next); conversions that expose no map (GDSII->raw) are repeated 32 times - unordered containers internal to a converter cannot be enumerated, only exercised. Two of the three layers may share a layer number, and then the other layers also define each purpose under two numbers. A state is (input, conversion); non-trivial = some map has >= 2 keys.".into(),
+            rule: "inputs: raw libraries with 1-2 abstract cells whose 1-2 ports carry shapes on 1-3 layers and whose blockages sit on 0/2/3 layers (unordered maps with 1-3 keys, every insertion order), 1-2 shapes per layer, plus a layout cell with elements on 3 layers x 2 purposes, an annotation and a reflected+rotated instance; LEF / protobuf / GDSII inputs derived from them in a fixed order. Conversions: raw->GDSII (bytes, dates pinned), raw->protobuf (prost bytes), raw->LEF (serde_json), LEF->raw->LEF, protobuf->raw->protobuf, GDSII->raw, raw->GDSII->raw, gridded layout->raw (raw results as an order-preserving dump; the gridded cell optionally holds two instances abutting along the tracks), and two conversions whose result is an error - GDSII->raw on struct rings of 2..4 closed by SREF / AREF (optionally a second ring, either listing order) raw->protobuf on cell rings, raw->GDSII / raw->protobuf of an element whose layer does not define its purpose, raw->protobuf of an unnamed instance rotated by 22.5 degrees, LEF->raw->LEF with a supplied layer that has no name of its own and is indexed under 2..3 names the LEF uses, and gridded layout->raw of a cut lying under an instance / of two overlapping cuts - where the rendered error is the compared output. Configurations: every input is rebuilt / re-imported with fresh HashMaps until each of the k! iteration orders of every map the exporter walks has been observed on the very map objects (minimum 32, cap 4096 rebuilds; coverage measured and reported as tags), plus fresh OS processes, plus the same input once more after each of three *other* inputs went through the same conversion in the same process (no state carried from one library to the next); conversions that expose no map (GDSII->raw) are repeated 32 times - unordered containers internal to a converter cannot be enumerated, only exercised. Two of the three layers may share a layer number, and then the other layers also define each purpose under two numbers. A state is (input, conversion); non-trivial = some map has >= 2 keys.".into(),
             assumptions: vec!["an unordered map in the raw data model itself is rendered sorted (a map has no order); every ordered container must keep its order".into()],
             excluded: vec!["gridded layout -> raw is exercised on three stacks x a few cells only (the C08 alphabet is not re-enumerated here)".into()],
             technique: "exhaustive enumeration of hash-map iteration orders (observed on the real map objects) x inputs x conversions; outputs compared byte-for-byte within and across processes".into(),
